@@ -258,6 +258,28 @@ def r5(ctx):
     ons = call_sites(fb, r"ExponentialBackOff::on_failure$")
     frets = return_blocks(fb)
     ctx.check(bool(ons) and all(must_pass(fb, 0, r_, {c.idx for c in ons}) for r_ in frets), "failure:both-arms", "every path of AutoTaskState::failure goes through on_failure (%d site(s))" % len(ons), fb.where(line=fb.line))
+    # ...applied to the back-off that is kept (self's own, or the named local that is stored afterwards), not to a temporary copy
+    for c_ in ons:
+        a0 = c_.term.args[0]
+        cur = None if a0.is_const() else a0.place.local
+        root = None
+        for _ in range(8):
+            if cur is None:
+                break
+            if cur == 1 or fb.local_name(cur):
+                root = cur
+                break
+            ds = fb.defs.get(cur, [])
+            if len(ds) != 1 or ds[0][1] == "term":
+                break
+            rv = fb.blocks[ds[0][0]].stmts[ds[0][1]].rv
+            if rv["k"] in ("ref", "rawptr"):
+                cur = rv["p"].local
+            elif rv["k"] == "use" and not rv["a"].is_const():
+                cur = rv["a"].place.local
+            else:
+                break
+        ctx.check(root is not None, "failure:advances-kept-backoff", "on_failure advances the stored back-off (receiver rooted at %s)" % (fb.local_name(root) if root else "?"), fb.where(c_.idx), bad_detail="on_failure is applied to a temporary (%s): the stored back-off never advances, retries stop doubling" % expr_str(fs.call_expr(c_.term)[2][0])[:60])
     n = 0
     for b, si, st in agg_sites(fb, r"association::AutoTaskState$", "Failed"):
         e = fs.rvalue_expr(st.rv)
@@ -336,3 +358,13 @@ RULES = [
     ("C17.R6", "T8-namesake", "the master's association configuration is plumbed field-to-namesake", r_plumb),
     ("C17.R7", "T3", "every failure path of an automatic task reports to its failure hook (shared with C16.R7)", r7),
 ]
+
+
+def r8(ctx):
+    """'a rejected start-up task is retried with back-off and keeps unsolicited gated': whether an integrity poll / auto task counts as
+    rejected is Iin::has_bad_request_error() - all three IIN2 rejection bits (C16.R10, shared code)."""
+    import c16
+    c16.r10(ctx)
+
+
+RULES.append(("C17.R8", "T4", "a response is a rejection when any of the three IIN2 rejection bits is set (shared with C16.R10)", r8))
